@@ -226,7 +226,7 @@ class FSA:
             if v not in self._out_dict:
                 self._out_dict[v] = defaultdict(list)
                 self._in_dict[v] = defaultdict(list)
-                self._graph_dict[v] = defaultdict(dict)
+                self._graph_dict[v] = {}
 
     def add_edges(self, edges, elist=False,
                   ignore_redundant=True):
